@@ -228,7 +228,8 @@ Definition ot_long := {| ot_width := 4; ot_div := 1; ot_bias := 0; ot_max := 429
 Definition otype_eqb (a b : otype) : bool :=
   (ot_width a =? ot_width b) && (ot_div a =? ot_div b) && (ot_bias a =? ot_bias b).
 
-(* retained_glyphs_in_font: complement of the replaced gids, clamped to [0, maxgid], as inclusive ranges *)
+(* retained_glyphs_in_font: complement of the replaced gids, clamped to [0, maxgid], as inclusive ranges
+   (IntSet::iter_excluded_ranges + the filter_map) *)
 Fixpoint keep_from (lo : Z) (gids : list Z) (maxgid : Z) : list (Z * Z) :=
   match gids with
   | [] => if lo <=? maxgid then [(lo, maxgid)] else []
@@ -236,14 +237,15 @@ Fixpoint keep_from (lo : Z) (gids : list Z) (maxgid : Z) : list (Z * Z) :=
               ++ keep_from (g + 1) r maxgid
   end.
 
-(* retained_glyphs_total_size *)
-Fixpoint retained_total (ranges : list (Z * Z)) (offs : list Z) (acc : Z) : res Z :=
+(* retained_glyphs_total_size; [e_off] = the error of offset_for for a missing entry
+   (glyf: InvalidPatch "Start loca entry is missing."; gvar: FontParsingFailed(OutOfBounds)) *)
+Fixpoint retained_total (ranges : list (Z * Z)) (offs : list Z) (e_off : err) (acc : Z) : res Z :=
   match ranges with
   | [] => inr acc
   | (s, e) :: r =>
       match nthZ offs s, nthZ offs (e + 1) with
-      | Some so, Some eo => if eo <? so then inl (2, 2) else retained_total r offs (acc + (eo - so))
-      | _, _ => inl (6, 10)
+      | Some so, Some eo => if eo <? so then inl (2, 2) else retained_total r offs e_off (acc + (eo - so))
+      | _, _ => inl e_off
       end
   end.
 
@@ -259,13 +261,81 @@ Fixpoint ascending (l : list Z) : bool :=
 Definition padding (T : otype) (n : Z) : Z := if 1 <? ot_div T then n mod ot_div T else 0.
 Definition off_fits (T : otype) (w : Z) : bool := w / ot_div T + ot_bias T <? 2 ^ (8 * ot_width T).
 
-(* OffsetArrayBuilder::build, glyph by glyph.  The Rust loop walks maximal runs of replaced / kept
-   gids; a kept run copies offsets[start]..offsets[end+1] in one piece and rebases the offsets inside
-   it.  After the all_offsets_are_ascending check (made by the caller below) and the existence checks
-   of retained_glyphs_total_size this is the same as copying glyph by glyph, which is what this
-   function does ([build_runs] below is the literal run-by-run transcription; the shards evaluate
-   both).  Returns the logical (byte) offset of every gid from [gid] on, the final offset, and the data. *)
-Fixpoint build_loop (n : nat) (gid : Z) (repl : gmap) (offs : list Z) (data : bytes) (T : otype) (w : Z)
+(* OffsetArrayBuilder::build, literal: the loop walks maximal runs of replaced gids (IntSet::iter_ranges,
+   [runs_from]) and of kept gids ([keep_from]), taking whichever starts first; a replaced run consumes the
+   next replacement data items one by one; a kept run copies offsets[start]..offsets[end+1] in one piece
+   and rebases every offset inside it.  Accumulators = the two Serializers (their capacity is exactly what
+   is written, see notes).  Result: logical (byte) offsets incl. the final one, and the data. *)
+Fixpoint runs_from (gids : list Z) : list (Z * Z) :=
+  match gids with
+  | [] => []
+  | g :: r => match runs_from r with
+              | (s, e) :: rr => if s =? g + 1 then (g, e) :: rr else (g, g) :: (s, e) :: rr
+              | [] => [(g, g)]
+              end
+  end.
+Fixpoint zrange (s : Z) (n : nat) : list Z := match n with O => [] | S k => s :: zrange (s + 1) k end.
+
+Fixpoint rep_steps (ds : list bytes) (T : otype) (w : Z) (acc_o : list Z) (acc_d : bytes)
+  : res (Z * list Z * bytes) :=
+  match ds with
+  | [] => inr (w, acc_o, acc_d)
+  | d :: r =>
+      if off_fits T w then
+        rep_steps r T (w + len d + padding T (len d)) (acc_o ++ [w])
+                  (acc_d ++ d ++ repeat 0 (Z.to_nat (padding T (len d))))
+      else inl (8, 0)
+  end.
+
+Definition run_len (r : Z * Z) : nat := Z.to_nat (snd r - fst r + 1).
+(* a run of replaced gids: the next [run_len r] replacement data items *)
+Definition rep_run (r : Z * Z) (rdata : list bytes) (T : otype) (w : Z) (acc_o : list Z) (acc_d : bytes)
+  : res (Z * list Z * bytes) :=
+  if Nat.ltb (length rdata) (run_len r) then inl (8, 0)
+  else rep_steps (firstn (run_len r) rdata) T w acc_o acc_d.
+(* a run of kept gids: one copy of offsets[start]..offsets[end+1], every offset inside rebased *)
+Definition keep_off (offs : list Z) (T : otype) (e_off : err) (so w g : Z) : res Z :=
+  match nthZ offs g with
+  | Some c => if off_fits T (c - so + w) then inr (c - so + w) else inl (8, 0)
+  | None => inl e_off
+  end.
+Definition keep_run (r : Z * Z) (offs : list Z) (data : bytes) (T : otype) (e_off : err)
+           (w : Z) (acc_o : list Z) (acc_d : bytes) : res (Z * list Z * bytes) :=
+  match nthZ offs (fst r), nthZ offs (snd r + 1) with
+  | Some so, Some eo =>
+      if eo <? so then inl (8, 0) else
+      match slice data so eo with
+      | None => inl (2, 1)
+      | Some chunk =>
+          let? os := mapM (keep_off offs T e_off so w) (zrange (fst r) (run_len r)) in
+          inr (w + (eo - so), acc_o ++ os, acc_d ++ chunk)
+      end
+  | _, _ => inl e_off
+  end.
+
+Fixpoint build_runs (fuel : nat) (rep keep : list (Z * Z)) (rdata : list bytes) (offs : list Z) (data : bytes)
+         (T : otype) (e_off : err) (w : Z) (acc_o : list Z) (acc_d : bytes) : res (list Z * bytes) :=
+  match fuel with
+  | O => inl (8, 1)
+  | S fuel' =>
+      let do_rep (r : Z * Z) rep' :=
+        let? (w2, o2, d2) := rep_run r rdata T w acc_o acc_d in
+        build_runs fuel' rep' keep (skipn (run_len r) rdata) offs data T e_off w2 o2 d2 in
+      let do_keep (r : Z * Z) keep' :=
+        let? (w2, o2, d2) := keep_run r offs data T e_off w acc_o acc_d in
+        build_runs fuel' rep keep' rdata offs data T e_off w2 o2 d2 in
+      match rep, keep with
+      | r :: rep', k :: keep' => if fst r <=? fst k then do_rep r rep' else do_keep k keep'
+      | r :: rep', [] => do_rep r rep'
+      | [], k :: keep' => do_keep k keep'
+      | [], [] => if off_fits T w then inr (acc_o ++ [w], acc_d) else inl (8, 0)
+      end
+  end.
+
+(* the same builder glyph by glyph — the SPECIFICATION used by the proofs; Proofs: whenever the literal
+   loop above succeeds (under the checks patch_offset_array makes before calling it) this function
+   returns the same offsets and data ([build_runs_sound]) *)
+Fixpoint build_loop (n : nat) (gid : Z) (repl : gmap) (offs : list Z) (data : bytes) (T : otype) (e_off : err) (w : Z)
   : res (list Z * bytes) :=
   match n with
   | O => if off_fits T w then inr ([w], []) else inl (8, 0)
@@ -276,19 +346,19 @@ Fixpoint build_loop (n : nat) (gid : Z) (repl : gmap) (offs : list Z) (data : by
             match slice data s e with
             | Some sl =>
                 if off_fits T w then
-                  let? (os, ds) := build_loop n' (gid + 1) repl offs data T (w + (e - s)) in
+                  let? (os, ds) := build_loop n' (gid + 1) repl offs data T e_off (w + (e - s)) in
                   inr (w :: os, sl ++ ds)
                 else inl (8, 0)
             | None => inl (2, 1)
             end
-        | _, _ => inl (6, 10)
+        | _, _ => inl e_off
         end in
       match repl with
       | (g, d) :: r' =>
           if g =? gid then
             if off_fits T w then
               let pad := padding T (len d) in
-              let? (os, ds) := build_loop n' (gid + 1) r' offs data T (w + len d + pad) in
+              let? (os, ds) := build_loop n' (gid + 1) r' offs data T e_off (w + len d + pad) in
               inr (w :: os, d ++ repeat 0 (Z.to_nat pad) ++ ds)
             else inl (8, 0)
           else keep
@@ -296,66 +366,22 @@ Fixpoint build_loop (n : nat) (gid : Z) (repl : gmap) (offs : list Z) (data : by
       end
   end.
 
-(* literal transcription of the run-based loop, used only as a cross-check in [check_case] *)
-Fixpoint runs_from (lo : Z) (gids : list Z) : list (Z * Z) :=      (* IntSet::iter_ranges *)
-  match gids with
-  | [] => []
-  | g :: r => match runs_from lo r with
-              | (s, e) :: rr => if s =? g + 1 then (g, e) :: rr else (g, g) :: (s, e) :: rr
-              | [] => [(g, g)]
-              end
-  end.
-Fixpoint zrange (s : Z) (n : nat) : list Z := match n with O => [] | S k => s :: zrange (s + 1) k end.
-Fixpoint build_runs (fuel : nat) (rep keep : list (Z * Z)) (rdata : list bytes) (offs : list Z) (data : bytes)
-         (T : otype) (w : Z) (acc_o : list Z) (acc_d : bytes) : res (list Z * bytes) :=
-  match fuel with
-  | O => inl (8, 1)
-  | S fuel' =>
-      let do_rep r rep' :=
-        let '(s, e) := r in
-        let n := Z.to_nat (e - s + 1) in
-        if Nat.ltb (length rdata) n then inl (8, 0) else
-        let ds := firstn n rdata in
-        let step := fold_left (fun st d => let '(w1, o1, d1) := st in
-                      (w1 + len d + padding T (len d), o1 ++ [w1], d1 ++ d ++ repeat 0 (Z.to_nat (padding T (len d)))))
-                      ds (w, acc_o, acc_d) in
-        let '(w2, o2, d2) := step in
-        build_runs fuel' rep' keep (skipn n rdata) offs data T w2 o2 d2 in
-      let do_keep r keep' :=
-        let '(s, e) := r in
-        match nthZ offs s, nthZ offs (e + 1) with
-        | Some so, Some eo =>
-            if eo <? so then inl (8, 0) else
-            match slice data so eo with
-            | None => inl (2, 1)
-            | Some chunk =>
-                let os := map (fun g => match nthZ offs g with Some c => c - so + w | None => -1 end)
-                              (zrange s (Z.to_nat (e - s + 1))) in
-                build_runs fuel' rep keep' rdata offs data T (w + (eo - so)) (acc_o ++ os) (acc_d ++ chunk)
-            end
-        | _, _ => inl (6, 10)
-        end in
-      match rep, keep with
-      | r :: rep', k :: keep' => if fst r <=? fst k then do_rep r rep' else do_keep k keep'
-      | r :: rep', [] => do_rep r rep'
-      | [], k :: keep' => do_keep k keep'
-      | [], [] => inr (acc_o ++ [w], acc_d)
-      end
-  end.
-
-(* patch_offset_array, generic in the offset array (offsets as returned by offset_for, data, types) *)
+(* patch_offset_array, generic in the offset array: [offs] = what offset_for returns (for gvar shifted by
+   the data array offset so that [data] is the whole table), [data] = what get() slices *)
 Definition patch_offset_array (views : list gp) (t : Z) (offs : list Z) (data : bytes)
-           (T : otype) (avail : list otype) (maxgid : Z) : res (otype * list Z * bytes) :=
+           (T : otype) (avail : list otype) (e_off : err) (maxgid : Z) : res (otype * list Z * bytes) :=
   match dedup views t with
   | inl (_, c) => inl (1, c)
   | inr m =>
       let gids := map fst m in
-      let? total0 := retained_total (keep_from 0 gids maxgid) offs 0 in
+      let keep := keep_from 0 gids maxgid in
+      let? total0 := retained_total keep offs e_off 0 in
       let total := fold_left (fun a gd => a + (len (snd gd) + len (snd gd) mod ot_div T)) m total0 in
       let? T' := choose_type T avail total in
       if last gids 0 >? maxgid then inl (6, 9) else
       if negb (ascending offs) then inl (2, 2) else
-      let? (os, ds) := build_loop (Z.to_nat (maxgid + 1)) 0 m offs data T' 0 in
+      let? (os, ds) := build_runs (S (S (length m + length keep))) (runs_from gids) keep (map snd m)
+                                  offs data T' e_off 0 [] [] in
       inr (T', os, ds)
   end.
 
@@ -378,13 +404,70 @@ Definition read_loca (f : font) : option (otype * list Z) :=
   | _, _ => None
   end.
 
-(* the glyf branch of apply_glyph_keyed_patches + GlyfAndLoca::add_to_font *)
-Definition patch_glyf (f : font) (views : list gp) (maxgid : Z) : res (bytes * bytes) :=
+(* the glyf branch of apply_glyph_keyed_patches + GlyfAndLoca::add_to_font: tables to add *)
+Definition patch_glyf (f : font) (views : list gp) (maxgid : Z) : res (list (Z * bytes)) :=
   match lookup f T_glyf, read_loca f with
   | Some glyf, Some (T, offs) =>
-      let? (T', os, ds) := patch_offset_array views T_glyf offs glyf T [T] maxgid in
-      if negb (otype_eqb T' T) then inl (3, 2) else inr (ds, encode_offsets T' os)
+      let? (T', os, ds) := patch_offset_array views T_glyf offs glyf T [T] (6, 10) maxgid in
+      if negb (otype_eqb T' T) then inl (3, 2) else inr [(T_glyf, ds); (T_loca, encode_offsets T' os)]
   | _, _ => inl (6, 8)
+  end.
+
+(* Gvar::read (generated) + the accessors used by impl GlyphDataOffsetArray for Gvar:
+   (axis count, shared tuple count, shared tuples offset, glyph count, low flag byte, data array offset,
+    offset type, raw offsets as returned by offset_for) *)
+Definition read_gvar (g : bytes) : option (Z * Z * Z * Z * Z * Z * otype * list Z) :=
+  match uN_at 2 g 4, uN_at 2 g 6, uN_at 4 g 8, uN_at 2 g 12, uN_at 2 g 14, uN_at 4 g 16 with
+  | Some axis, Some stc, Some sto, Some gc, Some flags, Some dao =>
+      let long := Z.testbit flags 0 in
+      let w := if long then 4 else 2 in
+      if len g <? 20 + (gc + 1) * w then None else
+      let raw := chunks (Z.to_nat w) (Z.to_nat (gc + 1)) (skipn 20 g) in
+      Some (axis, stc, sto, gc, flags mod 256, dao,
+            if long then ot_long else ot_short, if long then raw else map (fun x => x * 2) raw)
+  | _, _, _, _, _, _ => None
+  end.
+
+Definition set_u32 (b : bytes) (pos : nat) (v : Z) : bytes := firstn pos b ++ to_be 4 v ++ skipn (pos + 4) b.
+
+(* impl GlyphDataOffsetArray for Gvar :: add_to_font, incl. the klippa Serializer's capacity
+   (orig_size + data length), its refusal to pack an empty object, and the object order
+   header+offsets | shared tuples | glyph variation data *)
+Definition gvar_assemble (g : bytes) (hdr : Z * Z * Z * Z * Z * Z * otype * list Z) (T' : otype)
+           (os : list Z) (ds : bytes) : res bytes :=
+  let '(axis, stc, sto, gc, flags_lo, dao, T, _) := hdr in
+  let enc := encode_offsets T' os in
+  if otype_eqb T' T && negb (len enc =? (gc + 1) * ot_width T) then inl (8, 0) else
+  let flags' := if ot_width T' =? 4 then Z.lor flags_lo 1 else Z.land flags_lo 254 in
+  let cap := len g + len ds in
+  let mainlen := 20 + len enc in
+  if cap <? mainlen + len ds then inl (3, 4) else
+  if len ds =? 0 then inl (3, 0) else
+  if sto =? 0 then inl (2, 3) else
+  match slice g sto (sto + stc * axis * 2) with
+  | None => inl (2, 1)
+  | Some shared =>
+      if cap <? mainlen + len ds + len shared then inl (3, 4) else
+      let main := firstn 15 g ++ [flags'] ++ firstn 4 (skipn 16 g) ++ enc in
+      let main := set_u32 main 8 mainlen in
+      let main := set_u32 main 16 (mainlen + len shared) in
+      inr (main ++ shared ++ ds)
+  end.
+
+(* the gvar branch of apply_glyph_keyed_patches *)
+Definition patch_gvar (f : font) (views : list gp) (maxgid : Z) : res (list (Z * bytes)) :=
+  match lookup f T_gvar with
+  | Some g =>
+      match read_gvar g with
+      | Some hdr =>
+          let '(_, _, _, _, _, dao, T, offs) := hdr in
+          let? (T', os, ds) := patch_offset_array views T_gvar (map (fun o => dao + o) offs) g T
+                                                  [ot_short; ot_long] (2, 1) maxgid in
+          let? g' := gvar_assemble g hdr T' os ds in
+          inr [(T_gvar, g')]
+      | None => inl (6, 17)
+      end
+  | None => inl (6, 17)
   end.
 
 (* table_tag_list: per patch strictly ascending tags *)
@@ -415,6 +498,25 @@ Fixpoint mark_all (st : option bytes * option bytes) (infos : list pinfo) : res 
   | i :: r => let? st' := mark_applied st i in mark_all st' r
   end.
 
+(* the per-table branches of apply_glyph_keyed_patches in the order of the BTreeSet of tags
+   ('CFF ' < 'CFF2' < 'glyf' < 'gvar'); each returns the tables it adds to the font builder.
+   CFF / CFF2 charstrings rewriting is outside this model (class 98). *)
+Definition handler := font -> list gp -> Z -> res (list (Z * bytes)).
+Definition handlers : list (Z * handler) :=
+  [(T_CFF, fun _ _ _ => inl (98, 1)); (T_CFF2, fun _ _ _ => inl (98, 2));
+   (T_glyf, patch_glyf); (T_gvar, patch_gvar)].
+Fixpoint run_handlers (hs : list (Z * handler)) (f : font) (views : list gp) (maxgid : Z)
+         (processed : list Z) (fb : font) : res (list Z * font) :=
+  match hs with
+  | [] => inr (processed, fb)
+  | (t, h) :: r =>
+      if lists_tag views t then
+        let? adds := h f views maxgid in
+        run_handlers r f views maxgid (map fst adds ++ processed)
+                     (fold_left (fun acc td => fb_add (fst td) (snd td) acc) adds fb)
+      else run_handlers r f views maxgid processed fb
+  end.
+
 (* glyph_keyed.rs apply_glyph_keyed_patches after decoding and GlyphPatches::read *)
 Definition gk_core (f : font) (infos : list pinfo) (views : list gp) : res font :=
   let? ng :=
@@ -425,16 +527,7 @@ Definition gk_core (f : font) (infos : list pinfo) (views : list gp) : res font 
   if ng =? 0 then inl (2, 2) else
   let maxgid := ng - 1 in
   if negb (forallb (fun v => strictly_ascending (gp_tables v)) views) then inl (6, 7) else
-  if lists_tag views T_CFF then inl (98, 1) else
-  if lists_tag views T_CFF2 then inl (98, 2) else
-  let? (processed, fb) :=
-    if lists_tag views T_glyf then
-      let? (glyf', loca') := patch_glyf f views maxgid in
-      inr ([T_loca; T_glyf; T_IFT; T_IFTX], fb_add T_loca loca' (fb_add T_glyf glyf' []))
-    else inr ([T_IFT; T_IFTX], []) in
-  if lists_tag views T_gvar then
-    (match lookup f T_gvar with None => inl (6, 17) | Some _ => inl (98, 3) end)
-  else
+  let? (processed, fb) := run_handlers handlers f views maxgid [T_IFT; T_IFTX] [] in
   let? (ift', iftx') := mark_all (lookup f T_IFT, lookup f T_IFTX) infos in
   let fb := match ift' with Some d => fb_add T_IFT d fb | None => fb end in
   let fb := match iftx' with Some d => fb_add T_IFTX d fb | None => fb end in
@@ -547,44 +640,6 @@ Fixpoint flags_eqb (a : statuses) (b : list (Z * bool)) : bool :=
   | _, _ => false
   end.
 
-(* cross-check: run-by-run transcription of the builder against the glyph-by-glyph one, on the
-   glyf/loca of the case's font, whenever the glyph keyed path reaches the builder *)
-Definition runs_agree (f : font) (views : list gp) : bool :=
-  match lookup f T_maxp, lookup f T_glyf, read_loca f with
-  | Some m, Some glyf, Some (T, offs) =>
-      match uN_at 2 m 4, dedup views T_glyf with
-      | Some ng, inr mp =>
-          let maxgid := ng - 1 in
-          let gids := map fst mp in
-          if (ng =? 0) || (last gids 0 >? maxgid) || negb (ascending offs) then true else
-          match retained_total (keep_from 0 gids maxgid) offs 0 with
-          | inl _ => true
-          | inr _ =>
-              let a := build_loop (Z.to_nat (maxgid + 1)) 0 mp offs glyf T 0 in
-              let b := build_runs (S (length offs + length mp + 2)) (runs_from 0 gids) (keep_from 0 gids maxgid)
-                                  (map snd mp) offs glyf T 0 [] [] in
-              match a, b with
-              | inr (o1, d1), inr (o2, d2) => bytes_eqb o1 o2 && bytes_eqb d1 d2
-              | inl e1, inl e2 => (fst e1 =? fst e2) && (snd e1 =? snd e2)
-              | _, _ => false
-              end
-          end
-      | _, _ => true
-      end
-  | _, _, _ => true
-  end.
-
-Definition views_of_case (f : font) (noninv : list pinfo) (st : statuses) : list gp :=
-  match accumulate st noninv with
-  | inr acc =>
-      match gk_headers f acc with
-      | inr hs => match gk_decode (test_dec (-1) 0) hs 0 with
-                  | inr bufs => match mapM (fun bw => gp_read (fst bw) (snd bw)) bufs with inr v => v | inl _ => [] end
-                  | inl _ => [] end
-      | inl _ => [] end
-  | inl _ => []
-  end.
-
 Definition case_ty : Type :=
   (font * option pinfo * list pinfo * statuses * (Z * Z) * (Z * Z) * font * list (Z * bool))%type.
 
@@ -592,7 +647,6 @@ Definition check_case (c : case_ty) : bool :=
   let '(f, inv, noninv, st, (fail_at, kind), (cls, det), out, st_after) := c in
   let '(r, st') := apply_next (test_dec fail_at kind) f inv noninv st in
   flags_eqb st' st_after &&
-  runs_agree f (views_of_case f noninv st) &&
   match r with
   | inl (c', d') => (c' =? cls) && (d' =? det)
   | inr f' => (cls =? 0) && font_eqb (canon_head f') (canon_head out)
